@@ -100,3 +100,9 @@ VARIANTS += [
          [(EM4, "        if qubit.name != make_item_name(qubit.alias_from, qubit.alias_index):\n", "        if False:\n")],
          ("C04.9", "GateReplacer.visit_NamedQubit:declared-name-kept"), ("C04",)),
 ]
+VARIANTS += [
+    # reverting part of fix 8f86fd3
+    fire("r4-expand-macros-without-recursion-guard",
+         [(EM4, "@nesting_guard\ndef expand_macros(", "def expand_macros(")],
+         ("*", "expand_macros:recursion-guard"), ("C04", "C10")),
+]
